@@ -7,8 +7,8 @@
    its tag - whether its value was converted from a setting or was there before; the soundness
    of a validator run (success means every validator accepted, a failing validator is never
    masked); the meaning of the individual validators on integers and strings.  NOT proved: the
-   same statement through nested structs, pointers, collections and inline fields (F37 is the
-   known deviation for inline fields); it is decided by the correspondence run, where
+   same statement through nested structs, pointers, collections and inline fields (the model applies an
+   inline field's validate tag since the F37 repair); it is decided by the correspondence run, where
    prop_holds re-validates the ENTIRE value the implementation returned with rec_validate.
    Not modelled: Validate() methods and InitDefaults (exercised by the CHooked cases of the
    stream on the implementation only). *)
